@@ -184,6 +184,7 @@ def judge_other(case, out):
     out.obs = core.h64(case["payload"])
 
 
+@core.guard
 def judge(case):
     out = core.Outcome()
     {"msm": judge_msm, "harm": judge_harm, "other": judge_other}[case["kind"]](case, out)
